@@ -42,6 +42,16 @@ def check_module(tkey, devs):
 
     vs = []
     case = {"type": tkey, "devs": devs}
+    # a twin that is saved WITHOUT ever being looked at by the harness (reading every field can complete lazily built
+    # state, e.g. the MIDI-map table, and so hide a writer that depends on it): its file must equal the observed one's
+    try:
+        twin = deviate.build(tkey, devs)
+        b_unobserved = C.save(rv.Synth(twin))
+        ptw = rv.Project()
+        ptw.attach_module(deviate.build(tkey, devs))
+        b2_unobserved = C.save(ptw)
+    except Exception:
+        b_unobserved = b2_unobserved = None
     mod = deviate.build(tkey, devs)
     s_syn = S.module(mod, in_project=False)
     s_syn = C.norm_module_for_compare(s_syn)
@@ -54,6 +64,9 @@ def check_module(tkey, devs):
                        {"error": repr(e)}, case)], C.h8(b1)
     if type(l1) is not type(mod):
         vs.append(C.viol("type-identity", {"type": tkey}, {"loaded": type(l1).__name__}, case))
+    if b_unobserved is not None and b_unobserved != b1:
+        vs.append(C.viol("file-depends-on-whether-the-object-was-read-first", {"type": tkey, "ctx": "synth"},
+                         {"lens": [len(b_unobserved), len(b1)], "first_difference": C.first_byte_diff(b_unobserved, b1)}, case))
     vs += C.api_paths_agree(rv.Synth(mod), b1, {"type": tkey, "ctx": "synth"}, case, files=(len(devs) == 0))
     d = S.diff(s_syn, S.module(l1, in_project=False))
     if d:
@@ -73,6 +86,9 @@ def check_module(tkey, devs):
     p.attach_module(mod)
     s_prj = C.norm_module_for_compare(S.module(mod, in_project=True))
     b2 = C.save(p)
+    if b2_unobserved is not None and b2_unobserved != b2:
+        vs.append(C.viol("file-depends-on-whether-the-object-was-read-first", {"type": tkey, "ctx": "project"},
+                         {"lens": [len(b2_unobserved), len(b2)], "first_difference": C.first_byte_diff(b2_unobserved, b2)}, case))
     vs += C.api_paths_agree(p, b2, {"type": tkey, "ctx": "project"}, case, files=(len(devs) == 0))
     try:
         p2 = C.load_bytes(b2)
